@@ -701,9 +701,10 @@ Proof.
   intros i s bin j ws all l Hs Hb Hm Hr.
   rewrite nth_error_map in Hb. destruct (nth_error (bins_from 0 sv) i) as [b|] eqn:Eb; [|discriminate].
   cbn in Hb. injection Hb as <-.
-  rewrite nth_error_map, Hm in Hr. cbn in Hr. injection Hr as Hr.
-  apply counts_total_lemma in Hr; [|now apply slice_rows_length].
-  rewrite Hr. assert (E : nth_error (map (fun b => lenZ (slice rows b)) (bins_from 0 sv)) i = Some (lenZ (slice rows b))).
+  rewrite nth_error_map, Hm in Hr.
+  assert (Hr' : process n (MCounts ws all) (slice rows b) = RCounts l) by (cbn [option_map] in Hr; congruence).
+  apply counts_total_lemma in Hr'; [|now apply slice_rows_length].
+  rewrite Hr'. assert (E : nth_error (map (fun b => lenZ (slice rows b)) (bins_from 0 sv)) i = Some (lenZ (slice rows b))).
   { rewrite nth_error_map, Eb. reflexivity. }
   rewrite Sz, Hs in E. congruence.
 Qed.
